@@ -50,6 +50,33 @@ func genC06(r *simrt.RNG, tier string, variant int) Plan {
 		p.Ops = append(p.Ops, op)
 		tok++
 	}
+	if r.Bool(0.3) {
+		// several subscriptions opened with one shared cancellable context
+		k := 2 + r.Intn(2)
+		cancelAfter := 1 + Pick(r, []int{5, 30, 100, 200})
+		for i := 0; i < k; i++ {
+			op := Op{Kind: "sub", Client: 0, Tok: tok, N: Pick(r, []int{3, 40}), GapNs: int64(1e6), Group: 1,
+				Phase: Pick(r, []int{0, 10, 40})}
+			if i == 0 {
+				op.Cancel = cancelAfter
+			}
+			p.Ops = append(p.Ops, op)
+			tok++
+		}
+	}
+	if r.Bool(0.25) {
+		// the client stops reading for a while: server->client writes block (and a
+		// large response keeps the server's write lock busy) while cancels keep flowing
+		// (keepalive off on this connection: with pings on, gorilla's pong reply would
+		// hit its 1 s write timeout in the stalled direction and the server would
+		// drop the connection - a lost connection, not the healthy one C06 is about)
+		p.Servers[0].PingNs = -1
+		p.Clients[0].PingNs = -1
+		p.Clients[0].TimeoutNs = int64(3600e9) // and no idle read deadline either
+		p.Faults = append(p.Faults, Fault{Kind: "wstall", Dir: "s2c", Pipe: 0, Frame: -1, Phase: r.Intn(80)})
+		p.Ops = append(p.Ops, Op{Kind: "ctx", Client: 0, Tok: tok, Size: 20500})
+		tok++
+	}
 	return p
 }
 
@@ -61,10 +88,36 @@ func runC06(e *Env, p *Plan) {
 	}
 	gates := map[int]chan struct{}{}
 	var cancelAll []context.CancelFunc
+	groupCtx := map[int]context.Context{}
+	groupCancel := map[int]context.CancelFunc{}
+	groupToks := map[int][]int{}
+	for _, f := range p.Faults {
+		f := f
+		if f.Kind == "wstall" {
+			e.S.Go("wstall", func() {
+				for i := 0; i < f.Phase; i++ {
+					simrt.Yield("wstall-delay")
+				}
+				e.N.Inject(f.Pipe, "wstall", f.Dir, 0)
+				e.Probe("client-stopped-reading")
+			})
+		}
+	}
+	for _, op := range p.Ops {
+		if op.Group > 0 {
+			groupToks[op.Group] = append(groupToks[op.Group], op.Tok)
+		}
+	}
 	for _, op := range p.Ops {
 		op := op
 		t := w.Register(op)
 		ctx, cancel := context.WithCancel(context.Background())
+		if op.Group > 0 {
+			if groupCtx[op.Group] == nil {
+				groupCtx[op.Group], groupCancel[op.Group] = ctx, cancel
+			}
+			ctx, cancel = context.WithValue(groupCtx[op.Group], op.Tok, op.Tok), groupCancel[op.Group]
+		}
 		cancelAll = append(cancelAll, cancel)
 		if op.Kind == "ctx" || (op.Kind == "sub" && op.Hold) {
 			g := make(chan struct{})
@@ -91,10 +144,18 @@ func runC06(e *Env, p *Plan) {
 				for i := 1; i < op.Cancel; i++ {
 					simrt.Yield("cancel-delay")
 				}
-				t.mu.Lock()
-				t.Cancelled = true
-				t.CancelAt = e.S.Step()
-				t.mu.Unlock()
+				members := []int{op.Tok}
+				if op.Group > 0 {
+					members = groupToks[op.Group]
+					e.Probe("shared-context-cancelled")
+				}
+				for _, m := range members {
+					mt := e.Tok(m)
+					mt.mu.Lock()
+					mt.Cancelled = true
+					mt.CancelAt = e.S.Step()
+					mt.mu.Unlock()
+				}
 				e.Probe("cancel-fired")
 				simrt.Rec("cancel", itoa(op.Tok), "", 0)
 				cancel()
@@ -140,6 +201,11 @@ func runC06(e *Env, p *Plan) {
 	}
 	e.Invariant("C06.only-the-cancelled-call", live)
 	if !e.S.Settle(5 * time.Second) {
+		return
+	}
+	// every cancel task has fired by now (a parked task keeps Settle from
+	// completing); give the last cancel the same time to take effect
+	if !e.S.Settle(2 * time.Second) {
 		return
 	}
 	// (2) the cancelled calls' handlers see the cancellation
@@ -201,6 +267,7 @@ func runC06(e *Env, p *Plan) {
 			}
 		}
 	}
+	e.N.Heal()
 	for _, g := range gates {
 		close(g)
 	}
